@@ -204,7 +204,12 @@ func genFresh(r *gen.Rand) []string {
 		cc = compose(r, []string{"no-cache", "no-cache", " ", ",", "x", "=", "max-age=0", "no-", "cache", "NO-CACHE"}, 5)
 	}
 	etag := gen.Pick(r, []string{"", "\"abc\"", "W/\"abc\"", "abc", "\"abc\""})
-	return []string{gen.Pick(r, cfgsPlain), gen.Hex(cc), gen.Hex(nm), gen.Hex(etag)}
+	cfg := gen.Pick(r, cfgsPlain)
+	if nm != "" && r.Chance(1, 4) {
+		// isEtagStale slices the []byte header value: exact-capacity buffer on a fresh server
+		cfg, nm = "f", padToSizeClass(strings.TrimRight(nm, " \t"))
+	}
+	return []string{cfg, gen.Hex(cc), gen.Hex(nm), gen.Hex(etag)}
 }
 
 func genEnc(r *gen.Rand) []string {
@@ -296,6 +301,101 @@ func genSrvErr(r *gen.Rand) []string {
 	}
 }
 
+// wireShape: request shapes beyond "headers + Content-Length body": chunked bodies (well and badly
+// formed), Expect: 100-continue, very many header lines, multipart bodies with boundary variants,
+// pipelined requests.
+func wireShape(r *gen.Rand, host string) string {
+	post := func(extra []string, body string) string {
+		return "POST /?a=1 HTTP/1.1\r\n" + host + "\r\n" + strings.Join(extra, "\r\n") + "\r\n\r\n" + body
+	}
+	switch r.Intn(6) {
+	case 0: // chunked
+		chunks := gen.Pick(r, []string{
+			"5\r\nhello\r\n0\r\n\r\n", "5\r\na=1&b\r\n0\r\n\r\n", "a\r\n0123456789\r\nA\r\n0123456789\r\n0\r\n\r\n", "1\r\nx\r\n1\r\ny\r\n1\r\nz\r\n0\r\n\r\n",
+			"5\r\nhello\r\n0\r\n\r\n", "2\r\n{}\r\n0\r\n\r\n", "1\r\na\r\n2\r\nbc\r\n0\r\n\r\n", "0\r\n\r\n", "5;ext=1\r\nhello\r\n0\r\n\r\n",
+			"5\r\nhello\r\n0\r\nX-Trailer: v\r\n\r\n", "ffffffffffffffff\r\nx", "zz\r\nhello\r\n0\r\n\r\n", "5\r\nhel", "5\nhello\n0\n\n",
+			"-1\r\nx\r\n0\r\n\r\n", "5\r\nhelloXX0\r\n\r\n", "7fffffff\r\nab\r\n", "\r\n", "5\r\nhello\r\n", "00000000000000005\r\nhello\r\n0\r\n\r\n",
+			"3\r\na=1\r\n4\r\n&b=2\r\n0\r\n\r\n"})
+		te := gen.Pick(r, []string{"chunked", "chunked", "chunked", "chunked", "Chunked", "gzip, chunked", "chunked, chunked", "identity", "chunked\r\nContent-Length: 5", "x"})
+		return post([]string{"Transfer-Encoding: " + te, "Content-Type: application/x-www-form-urlencoded"}, chunks)
+	case 1: // Expect: 100-continue
+		body := gen.Pick(r, []string{"a=1&b=2", "", "x"})
+		cl := gen.Pick(r, []string{strconv.Itoa(len(body)), strconv.Itoa(len(body)), "0", "5", "99999999999"})
+		return post([]string{"Expect: " + gen.Pick(r, []string{"100-continue", "100-Continue", "100-continue, x", "200-ok", ""}), "Content-Length: " + cl}, body)
+	case 2: // very many header lines (ReadBufferSize is 4096 by default, 512 for cfg s)
+		n := 60 + r.Intn(340)
+		var hs []string
+		for i := 0; i < n; i++ {
+			switch r.Intn(6) {
+			case 0:
+				hs = append(hs, "Cookie: c"+strconv.Itoa(i)+"=v")
+			case 1:
+				hs = append(hs, "Accept: text/html;q=0."+strconv.Itoa(i%10))
+			case 2:
+				hs = append(hs, "X-Forwarded-For: 1.2.3."+strconv.Itoa(i%256))
+			default:
+				hs = append(hs, "X-H"+strconv.Itoa(i)+": v")
+			}
+		}
+		return "GET / HTTP/1.1\r\n" + host + "\r\n" + strings.Join(hs, "\r\n") + "\r\n\r\n"
+	case 3, 4: // multipart
+		bnd := gen.Pick(r, []string{"xx", "----WebKitFormBoundary7MA4YWxkTrZu0gW", "\"q b\"", "", "a", strings.Repeat("b", 71), "x y", "--", "xx; charset=utf-8", "\"xx"})
+		use := strings.Trim(bnd, "\"")
+		if i := strings.IndexByte(use, ';'); i >= 0 {
+			use = use[:i]
+		}
+		part := func(disp, ctype, content string) string {
+			h := "--" + use + "\r\nContent-Disposition: " + disp + "\r\n"
+			if ctype != "" {
+				h += "Content-Type: " + ctype + "\r\n"
+			}
+			return h + "\r\n" + content + "\r\n"
+		}
+		var body strings.Builder
+		for i := r.Intn(4); i >= 0; i-- {
+			body.WriteString(part(gen.Pick(r, []string{"form-data; name=\"f\"; filename=\"a.txt\"", "form-data; name=\"a\"", "form-data", "form-data; name=\"f\"; filename=\"../../x\"",
+				"form-data; name=\"\"", "attachment", "form-data; name=\"f\"; filename=\"a\rb\"", "form-data; name=a; name=b", "form-data; filename*=utf-8''x"}),
+				gen.Pick(r, []string{"", "text/plain", "application/octet-stream", "multipart/mixed; boundary=yy"}),
+				gen.Pick(r, []string{"hi", "", "--" + use, "line1\r\n--" + use + "x", strings.Repeat("z", 300)})))
+		}
+		switch r.Intn(5) {
+		case 0: // no closing delimiter
+		case 1:
+			body.WriteString("--" + use + "--")
+		case 2:
+			body.WriteString("--" + use + "--\r\nepilogue")
+		default:
+			body.WriteString("--" + use + "--\r\n")
+		}
+		bs := body.String()
+		cl := gen.Pick(r, []string{strconv.Itoa(len(bs)), strconv.Itoa(len(bs)), strconv.Itoa(len(bs)), strconv.Itoa(len(bs)), strconv.Itoa(len(bs)), strconv.Itoa(len(bs)),
+			strconv.Itoa(len(bs) / 2), strconv.Itoa(len(bs) + 7)})
+		ct := "multipart/form-data; boundary=" + bnd
+		if r.Chance(1, 8) {
+			ct = gen.Pick(r, []string{"multipart/form-data", "multipart/form-data;", "multipart/form-data; boundary", "multipart/form-data; BOUNDARY=xx", "multipart/mixed; boundary=xx", "multipart/form-data; boundary=xx; boundary=yy"})
+		}
+		return post([]string{"Content-Type: " + ct, "Content-Length: " + cl}, bs)
+	default: // pipelined requests on one connection
+		var sb strings.Builder
+		for i := 1 + r.Intn(4); i > 0; i-- {
+			switch r.Intn(4) {
+			case 0:
+				sb.WriteString("POST /p?to=/n HTTP/1.1\r\n" + host + "\r\nContent-Length: 3\r\nContent-Type: application/x-www-form-urlencoded\r\n\r\na=1")
+			case 1:
+				sb.WriteString("GET /a/b?x=1 HTTP/1.1\r\n" + host + "\r\nAccept: text/html;level=1, */*;q=0.1\r\nRange: bytes=0-1,5-\r\n\r\n")
+			case 2:
+				sb.WriteString("BREW / HTTP/1.1\r\n" + host + "\r\n\r\n")
+			default:
+				sb.WriteString("GET / HTTP/1.1\r\n" + host + "\r\nConnection: " + gen.Pick(r, []string{"keep-alive", "close", "upgrade"}) + "\r\n\r\n")
+			}
+		}
+		if r.Chance(1, 4) {
+			sb.WriteString("GET /tail HTTP/1.1\r\nHost")
+		}
+		return sb.String()
+	}
+}
+
 // wire: grammar + mutation of raw request bytes
 func genWire(r *gen.Rand) []string {
 	method := gen.Pick(r, []string{"GET", "POST", "PUT", "HEAD", "OPTIONS", "BREW", "get"})
@@ -330,8 +430,15 @@ func genWire(r *gen.Rand) []string {
 		hs = append(hs, "Content-Length: "+gen.Pick(r, []string{strconv.Itoa(len(body)), strconv.Itoa(len(body)), "0", "x", "99"}))
 	}
 	raw := method + " " + path + " HTTP/1.1\r\n" + strings.Join(hs, "\r\n") + "\r\n\r\n" + body
+	muts := r.Intn(3)
+	if r.Chance(2, 5) {
+		raw = wireShape(r, gen.Pick(r, []string{hs[0], "Host: example.com"}))
+		if r.Bool() { // half of the shaped requests go out as built (framing intact)
+			muts = 0
+		}
+	}
 	b := []byte(raw)
-	for k := r.Intn(3); k > 0 && len(b) > 0; k-- { // byte-level mutations
+	for k := muts; k > 0 && len(b) > 0; k-- { // byte-level mutations
 		p := r.Intn(len(b))
 		switch r.Intn(4) {
 		case 0:
